@@ -32,6 +32,8 @@ type ConcCfg struct {
 	LowChild bool // children with inode numbers below their directory's
 	NoCheck  bool // skip porcupine (race detector runs)
 	BigBias  bool // many truncations/removals of the big file (frees in flight)
+	FileFocus bool // all clients hammer one file (SETATTR/WRITE/GETATTR/READ)
+	HalfFreed bool // start from a server that was stopped in the middle of a big free: the first allocations are handed a half-freed inode
 	Focus    bool // namespace races on two names in one directory whose children have smaller numbers
 	Procs    int
 }
@@ -172,6 +174,25 @@ func genConcOp(r *Rng, w *world, mine *[][]byte, uid *uint64, cfg ConcCfg) *Op {
 			return (*mine)[r.Intn(len(*mine))]
 		}
 		return w.files[r.Intn(len(w.files))]
+	}
+	if cfg.FileFocus {
+		f := w.files[0]
+		switch x := r.Intn(100); {
+		case x < 45:
+			return &Op{K: OpSetattr, H: f, SetSize: true, Size: uint64(1 + r.Intn(40000))}
+		case x < 75:
+			*uid++
+			n := r.PickU32([]uint32{10, 4096, 5000})
+			return &Op{K: OpWrite, H: f, Off: r.Pick([]uint64{0, 100, 4096, 8192, 30000}), Count: n, DataLen: n, Uid: *uid, Stable: r.Intn(3)}
+		case x < 88:
+			return &Op{K: OpGetattr, H: f}
+		default:
+			return &Op{K: OpRead, H: f, Off: 0, Count: 65536}
+		}
+	}
+	if cfg.HalfFreed && r.Intn(2) == 0 {
+		// many creations of few names: they are handed the half-freed inode
+		return &Op{K: []OpKind{OpCreate, OpCreate, OpMkdir, OpSymlink}[r.Intn(4)], H: w.dirs[r.Intn(len(w.dirs))], Name: w.names[r.Intn(2)], Target: "t"}
 	}
 	if cfg.Focus {
 		d := w.dirs[len(w.dirs)-1]
@@ -319,6 +340,16 @@ func runOneHistory(cfg ConcCfg, seed uint64, cas, h int, res *ConcRes) {
 	// ---- sequential setup ----------------------------------------------
 	w := &world{names: []string{"a", "b", "c"}, mnames: []string{"m1", "m2"}}
 	w.dirs = append(w.dirs, srv.Root)
+	if cfg.HalfFreed {
+		// a big file with a small inode number is removed and the server is
+		// stopped before the background free has finished
+		if r := s.exec(&Op{K: OpCreate, H: srv.Root, Name: "doomed"}); r.Stat == stOK {
+			for k := 0; k < 20; k++ {
+				s.nextUid++
+				s.exec(&Op{K: OpWrite, H: r.FH, Off: uint64(k) * 64 * BlockSize, Count: 64 * BlockSize, DataLen: 64 * BlockSize, Uid: s.nextUid, Stable: 0})
+			}
+		}
+	}
 	mk := func(k OpKind, dir []byte, name string) []byte {
 		r := s.exec(&Op{K: k, H: dir, Name: name, Target: "t"})
 		if r.Stat != stOK {
@@ -364,7 +395,19 @@ func runOneHistory(cfg ConcCfg, seed uint64, cas, h int, res *ConcRes) {
 			s.exec(&Op{K: OpWrite, H: w.big, Off: uint64(k) * 60 * BlockSize, Count: 60 * BlockSize, DataLen: 60 * BlockSize, Uid: uid, Stable: 0})
 		}
 	}
-	if rng.Intn(3) == 0 {
+	if cfg.HalfFreed {
+		s.exec(&Op{K: OpRemove, H: srv.Root, Name: "doomed"})
+		// Crash(): the shrinker stops after its current transaction, then a
+		// clean shutdown; the next server finds a half-freed inode
+		s.srv.Flush()
+		if s.srv.stub != nil {
+			s.srv.stub.Close()
+			s.srv.stub = nil
+		}
+		s.srv.N.Crash()
+		s.srv = StartSrv(s.srv.D, s.srv.Opts)
+		srv = s.srv
+	} else if rng.Intn(3) == 0 {
 		s.restart() // cold caches
 		srv = s.srv
 	}
